@@ -1,0 +1,44 @@
+#ifndef VERIF_HOOKS_H
+#define VERIF_HOOKS_H
+/* verif_hooks.h */
+/*****************************************************************************/
+/* SPDX-License-Identifier: GPL-2.0-only OR GPL-3.0-only                     */
+/*                                                                           */
+/* Optional execution tracing for external verification tooling.             */
+/* Everything in here only exists when compiled with -DASL_VERIF and is      */
+/* inert unless the environment variable ASL_VERIF_TRACE names a file.       */
+/*                                                                           */
+/*   ASL_VERIF_TRACE=<file>      append one JSON object per event (ndjson)   */
+/*   ASL_VERIF_EVENTS=a,b,...    event classes to record (default: all but   */
+/*                               sym_ref, line, split)                       */
+/*   ASL_VERIF_MAX_PASSES=<n>    exit(97) if a file needs more than n passes */
+/*   ASL_VERIF_EXTRA_PASSES=<n>  run n more passes after convergence         */
+/*****************************************************************************/
+
+#ifdef ASL_VERIF
+
+#    include <stdio.h>
+
+enum {
+    AV_FILE  = 1 << 0, /* file_begin, pass_begin, pass_end, file_end */
+    AV_STMT  = 1 << 1, /* one per processed source line */
+    AV_EMIT  = 1 << 2, /* emit, reserve, retract */
+    AV_SYM   = 1 << 3, /* sym_def, sym_mod */
+    AV_REF   = 1 << 4, /* sym_ref */
+    AV_DIAG  = 1 << 5, /* diag */
+    AV_LINE  = 1 << 6, /* line delivered by the macro processor */
+    AV_SPLIT = 1 << 7  /* result of splitting a line into fields */
+};
+
+extern FILE*    asl_verif_trace;
+extern unsigned asl_verif_mask;
+extern long     asl_verif_max_passes, asl_verif_extra_passes;
+
+#    define AV_ON(cls) (asl_verif_trace && (asl_verif_mask & (cls)))
+
+extern void asl_verif_init(void);
+extern void asl_verif_str(char const* key, char const* val);
+extern void asl_verif_hex(char const* key, unsigned char const* p, unsigned long n);
+
+#endif /* ASL_VERIF */
+#endif /* VERIF_HOOKS_H */
